@@ -381,6 +381,12 @@ func Eq(x, y *Term) *Term {
 			return Not(x)
 		}
 	}
+	if x.Op == "ite" && y.Op == "int" && x.Args[1].Op == "int" && x.Args[2].Op == "int" {
+		return Ite(x.Args[0], BoolC(x.Args[1].Int.Cmp(y.Int) == 0), BoolC(x.Args[2].Int.Cmp(y.Int) == 0))
+	}
+	if y.Op == "ite" && x.Op == "int" && y.Args[1].Op == "int" && y.Args[2].Op == "int" {
+		return Ite(y.Args[0], BoolC(y.Args[1].Int.Cmp(x.Int) == 0), BoolC(y.Args[2].Int.Cmp(x.Int) == 0))
+	}
 	if x.Op == "ctor" && y.Op == "ctor" {
 		if x.Name != y.Name {
 			return TFalse
@@ -492,6 +498,12 @@ func Or(xs ...*Term) *Term {
 	if len(flat) == 1 {
 		return flat[0]
 	}
+	if len(flat) == 2 {
+		// (A and c) or (A and not c)  ==  A        (guards re-joining after a diamond)
+		if r := mergeComplement(flat[0], flat[1]); r != nil {
+			return r
+		}
+	}
 	return mk("or", "", SBool, nil, flat...)
 }
 
@@ -547,12 +559,37 @@ func Ite(c, a, b *Term) *Term {
 	if c.Op == "not" {
 		return Ite(c.Args[0], b, a)
 	}
+	// contextual simplification: inside the then-branch c holds, inside the else-branch it does not
+	if a.Op == "ite" || a.Op == "and" || a.Op == "or" || a.Op == "not" {
+		if c.Op == "and" {
+			for _, cj := range c.Args {
+				a = assumeCond(a, cj, true, 16)
+			}
+		} else {
+			a = assumeCond(a, c, true, 16)
+		}
+	}
+	if b.Op == "ite" || b.Op == "and" || b.Op == "or" || b.Op == "not" {
+		b = assumeCond(b, c, false, 16)
+	}
+	if a == b {
+		return a
+	}
 	// ite(c, a, ite(c, _, b)) etc.
 	if b.Op == "ite" && b.Args[0] == c {
 		return Ite(c, a, b.Args[2])
 	}
 	if a.Op == "ite" && a.Args[0] == c {
 		return Ite(c, a.Args[1], b)
+	}
+	if a.Sort == SInt && a.Op != "int" {
+		if d := Sub(a, b); d.Op == "int" && b.Op != "int" {
+			if d.Int.Sign() > 0 {
+				return Add(b, mk("ite", "", SInt, nil, c, d, IntC(0)))
+			}
+			// keep the constant positive: ite(c, a, a + |d|) = a + ite(not c, |d|, 0)
+			return Add(a, mk("ite", "", SInt, nil, Not(c), Neg(d), IntC(0)))
+		}
 	}
 	if a.Op == "ctor" && b.Op == "ctor" && a.Name == b.Name {
 		args := make([]*Term, len(a.Args))
@@ -582,7 +619,13 @@ func Select(a, i *Term) *Term {
 		return a.Args[0]
 	}
 	if a.Op == "ite" {
-		return Ite(a.Args[0], Select(a.Args[1], i), Select(a.Args[2], i))
+		k := [2]int{-a.id, i.id}
+		if r, ok := selMemo[k]; ok {
+			return r
+		}
+		r := Ite(a.Args[0], Select(a.Args[1], i), Select(a.Args[2], i))
+		selMemo[k] = r
+		return r
 	}
 	return mk("select", "", a.Sort.Elem, nil, a, i)
 }
@@ -675,14 +718,29 @@ func ctorOf(s *Sort, name string) *Ctor {
 	return nil
 }
 
-// SelField selects field i of constructor c from x.
+var selMemo = map[[2]int]*Term{}
+var selNameID = map[string]int{}
+
+// SelField selects field i of constructor c from x (memoised: pushing selectors through
+// shared if-then-else DAGs would otherwise take exponential time).
 func SelField(c *Ctor, i int, x *Term) *Term {
 	f := c.Fields[i]
 	if x.Op == "ctor" && x.Name == c.Name {
 		return x.Args[i]
 	}
 	if x.Op == "ite" {
-		return Ite(x.Args[0], SelField(c, i, x.Args[1]), SelField(c, i, x.Args[2]))
+		nid, ok := selNameID[f.Name]
+		if !ok {
+			nid = len(selNameID) + 1
+			selNameID[f.Name] = nid
+		}
+		k := [2]int{nid, x.id}
+		if r, ok := selMemo[k]; ok {
+			return r
+		}
+		r := Ite(x.Args[0], SelField(c, i, x.Args[1]), SelField(c, i, x.Args[2]))
+		selMemo[k] = r
+		return r
 	}
 	return mk("sel", f.Name, f.Sort, nil, x)
 }
@@ -695,7 +753,18 @@ func IsCtor(c *Ctor, x *Term) *Term {
 		return TTrue
 	}
 	if x.Op == "ite" {
-		return Ite(x.Args[0], IsCtor(c, x.Args[1]), IsCtor(c, x.Args[2]))
+		nid, ok := selNameID["is:"+c.Name]
+		if !ok {
+			nid = len(selNameID) + 1
+			selNameID["is:"+c.Name] = nid
+		}
+		k := [2]int{nid, x.id}
+		if r, ok := selMemo[k]; ok {
+			return r
+		}
+		r := Ite(x.Args[0], IsCtor(c, x.Args[1]), IsCtor(c, x.Args[2]))
+		selMemo[k] = r
+		return r
 	}
 	return mk("is", c.Name, SBool, nil, x)
 }
@@ -1234,4 +1303,111 @@ func unfoldRecs(ts []*Term, defs []*RecDef, depth int) []*Term {
 		}
 	}
 	return out
+}
+
+func conjuncts(t *Term) []*Term {
+	if t.Op == "and" {
+		return t.Args
+	}
+	return []*Term{t}
+}
+
+// mergeComplement: if a = A ∧ c and b = A ∧ ¬c (same other conjuncts) return A.
+func mergeComplement(a, b *Term) *Term {
+	ca, cb := conjuncts(a), conjuncts(b)
+	if len(ca) != len(cb) {
+		return nil
+	}
+	inB := map[int]bool{}
+	for _, x := range cb {
+		inB[x.id] = true
+	}
+	var onlyA []*Term
+	var common []*Term
+	for _, x := range ca {
+		if inB[x.id] {
+			common = append(common, x)
+		} else {
+			onlyA = append(onlyA, x)
+		}
+	}
+	if len(onlyA) != 1 || len(common) != len(ca)-1 {
+		return nil
+	}
+	neg := Not(onlyA[0])
+	if !inB[neg.id] {
+		return nil
+	}
+	return And(common...)
+}
+
+var assumeMemo = map[[3]int]*Term{}
+
+// assumeCond simplifies t under the assumption that condition c has truth value val, looking
+// through if-then-else and boolean connectives only (bounded depth).
+func assumeCond(t, c *Term, val bool, depth int) *Term {
+	if t == c {
+		return BoolC(val)
+	}
+	if t.Op == "not" && t.Args[0] == c {
+		return BoolC(!val)
+	}
+	if depth == 0 {
+		return t
+	}
+	switch t.Op {
+	case "ite", "and", "or", "not":
+	default:
+		return t
+	}
+	v := 0
+	if val {
+		v = 1
+	}
+	k := [3]int{t.id, c.id, v}
+	if r, ok := assumeMemo[k]; ok {
+		return r
+	}
+	var r *Term
+	switch t.Op {
+	case "ite":
+		cc := assumeCond(t.Args[0], c, val, depth-1)
+		if cc.IsTrue() {
+			r = assumeCond(t.Args[1], c, val, depth-1)
+		} else if cc.IsFalse() {
+			r = assumeCond(t.Args[2], c, val, depth-1)
+		} else {
+			x, y := assumeCond(t.Args[1], c, val, depth-1), assumeCond(t.Args[2], c, val, depth-1)
+			if cc == t.Args[0] && x == t.Args[1] && y == t.Args[2] {
+				r = t
+			} else {
+				r = Ite(cc, x, y)
+			}
+		}
+	case "not":
+		x := assumeCond(t.Args[0], c, val, depth-1)
+		if x == t.Args[0] {
+			r = t
+		} else {
+			r = Not(x)
+		}
+	default:
+		args := make([]*Term, len(t.Args))
+		changed := false
+		for i, a := range t.Args {
+			args[i] = assumeCond(a, c, val, depth-1)
+			if args[i] != a {
+				changed = true
+			}
+		}
+		if !changed {
+			r = t
+		} else if t.Op == "and" {
+			r = And(args...)
+		} else {
+			r = Or(args...)
+		}
+	}
+	assumeMemo[k] = r
+	return r
 }
